@@ -37,9 +37,46 @@ def run(rep):
     from ..rules import walk as _W
     rep.run(_W.writer_sides_independent, "O16.1")
     rep.run(coefficient_sources)
+    rep.run(view_filters)
     rep.run(bipartite)
     rep.run(species_graph)
     rep.run(strings)
+
+
+# ------------------------------------------------------------------ O16.1 / O16.2: nothing of a reaction is filtered out of a view, markers are the writer's
+def view_filters(rep):
+    """(a) the species-graph writer records EVERY (reactant, product) pair of a reaction - the reader recovers a side only from its arcs, so a skipped
+        pair (e.g. the self-arc of a species on both sides) loses that side when it was the only reactant or the only product;
+    (b) the bipartite reader recognises node kinds by the writer's `kind` tag: the values of the `bipartite` flag are chosen by the caller of the
+        writer (`bipartite_values`), comparing the flag with a literal hard-codes one choice."""
+    w = rep.f(CV, "hypergraph_to_species_graph")
+    pm = parent_map(w.node)
+    pair_loops = [l for l in walk_local(w.node) if isinstance(l, ast.For) and norm(l.iter).endswith(".products.items()")
+                  and any(isinstance(o, ast.For) and norm(o.iter).endswith(".reactants.items()") and any(x is l for x in ast.walk(o)) for o in walk_local(w.node))]
+    rep.need("SRC", len(pair_loops), 1, "reactant x product pair loop in hypergraph_to_species_graph")
+    for l in pair_loops:
+        skips = [x for x in walk_local(l) if isinstance(x, (ast.Continue, ast.Break))]
+        bad = []
+        for x in skips:
+            allg = guards_of(pm, x, l)
+            gs = [t for t, sn in allg if sn]
+            # a `continue` that only ends the handling of a pair whose arc exists already / was just created is not a filter
+            if any(isinstance(c_, ast.Call) and call_name(c_) == "has_edge" for t, sn in allg for c_ in ast.walk(t)):
+                continue
+            bad.append((x, gs))
+        rep.ob("O16.2", "SRC", w, not bad, bad[0][0] if bad else l.iter, "every (reactant, product) pair of a reaction is recorded in the species graph" +
+               (f" (skipped under `{norm(bad[0][1][0]) if bad[0][1] else 'always'}`)" if bad else ""), node=bad[0][0] if bad else l)
+    r = rep.f(CV, "bipartite_to_hypergraph")
+    rd = local_defs(r.node)
+    lits = []
+    for c in walk_local(r.node):
+        if isinstance(c, ast.Compare) and len(c.ops) == 1 and isinstance(c.ops[0], (ast.Eq, ast.NotEq, ast.In, ast.NotIn, ast.Is, ast.IsNot)):
+            sides = [c.left, c.comparators[0]]
+            flag = [x for x in sides if any(isinstance(y, ast.Constant) and y.value == "bipartite" for z in [origin(rd, x)] for y in ast.walk(z))]
+            lit = [x for x in sides if isinstance(x, (ast.Constant, ast.Tuple, ast.List, ast.Set))]
+            if flag and lit:
+                lits.append(c)
+    rep.ob("O16.1", "R3b", r, not lits, lits[0] if lits else "kind tags", "node kinds are read from the writer's `kind` tag, not from a literal value of the caller-chosen `bipartite` flag", node=lits[0] if lits else r.node)
 
 
 # ------------------------------------------------------------------ O16.1 / O16.2: where the exported / imported coefficients come from
